@@ -73,6 +73,10 @@ pub fn run_case(case: &Case) -> (Vec<(String, String)>, CaseInfo) {
             if !case.hist.ncfg.loading_completed {
                 orphan_seen = true;
             }
+        } else if idx != 0 && is_rootless(&d.node, &table, b) {
+            // parent stored but the branch's fork point has been purged: same code path
+            info.orphans += 1;
+            orphan_seen = true;
         }
         if is_dup {
             info.duplicates += 1;
@@ -125,7 +129,7 @@ pub fn run_case(case: &Case) -> (Vec<(String, String)>, CaseInfo) {
             let key = if ctxclass == "orphan_seen" {
                 // one root cause (the out-of-order branch of add_block inserts and may adopt blocks
                 // whose parent is unknown), many symptoms: keyed by cause
-                "C03|orphan_path|loading_completed=false".to_string()
+                "C03|orphan_path".to_string()
             } else {
                 format!("C03|{}|ctx={}", suffix, ctxclass)
             };
